@@ -94,6 +94,7 @@ func genUniverse(r *vh.Rng) *universe {
 		// the roots should mostly lead somewhere
 		if i <= 2 && f.Ret.Kind != "obj" && f.Ret.Kind != "union" {
 			f.Ret = fedgen.Ret{Kind: "obj", Target: u.names[r.Intn(len(u.names))], Ptr: true, List: r.Chance(60)}
+			f.Ret.List2 = f.Ret.List && r.Chance(25)
 		}
 		pickUnion(&f)
 		u.query = append(u.query, f)
@@ -203,6 +204,7 @@ type qgen struct {
 	vars    map[string]bool
 	nextVar int
 	stats   map[string]int
+	pool    map[string][]string // object type -> names of reusable named fragments on it
 	aliases map[string]int // (field, arguments) -> alias number: injective, so equal aliases never conflict
 	dups    bool // this query repeats aliases with different sub-selections (then it carries no directives)
 }
@@ -369,6 +371,37 @@ func (g *qgen) selsFor(typ string, depth int) []Sel {
 	for i := range out {
 		if !g.dups && count[out[i].Alias] == 1 && out[i].Name != "__typename" && r.Chance(15) {
 			out[i].Dir = g.dir()
+		}
+	}
+	// named fragments from a pool: a fragment is spread at several places of the query, and several fragments on
+	// the same type meet in one selection set, where they may give the same alias different sub-selections
+	// (queries without directives only: equal aliases must then carry equal directives)
+	if typ != "Query" && g.dups && depth >= 0 {
+		for k := 0; k < 2; k++ {
+			if !r.Chance(35) {
+				continue
+			}
+			var name string
+			if pool := g.pool[typ]; len(pool) > 0 && r.Chance(60) {
+				name = pool[r.Intn(len(pool))]
+			} else if len(g.frags) < 8 {
+				name = fmt.Sprintf("P%d", len(g.frags))
+				// reserve the slot first so that nested pool fragments get later numbers and cannot be cyclic
+				g.frags = append(g.frags, FragDef{Name: name, On: typ})
+				idx := len(g.frags) - 1
+				body := g.selsFor(typ, depth-1)
+				g.frags[idx].Subs = body
+				g.pool[typ] = append(g.pool[typ], name)
+			}
+			if name != "" {
+				sp := Sel{Spread: name}
+				if r.Bool() {
+					out = append([]Sel{sp}, out...) // the spread's selections come first for their aliases
+				} else {
+					out = append(out, sp)
+				}
+				g.stats["pool-fragment-spread"]++
+			}
 		}
 	}
 	// fragments: move a suffix into an inline or a named fragment on this type
@@ -608,7 +641,7 @@ func genCase(r *vh.Rng) Case {
 			c.Selector[k] = o[r.Intn(len(o))]
 		}
 	}
-	g := &qgen{r: r, u: u, vars: map[string]bool{}, stats: map[string]int{}, aliases: map[string]int{}, dups: r.Chance(55)}
+	g := &qgen{r: r, u: u, vars: map[string]bool{}, stats: map[string]int{}, aliases: map[string]int{}, pool: map[string][]string{}, dups: r.Chance(55)}
 	c.Query = g.selsFor("Query", 2+r.Intn(3))
 	c.Frags = g.frags
 	c.Vars = g.vars
